@@ -39,7 +39,7 @@ class FloatNode(BaseNode, SelectNode):
         """
         if value is None and self.value_raw:
             self.value = FloatType(self.cast_value(), self.units_raw, precision=self.precision)
-        elif value:
+        elif value is not None:
             self.value = FloatType(value, self.units_raw, precision=self.precision)
         else:
             self.value = None
